@@ -467,8 +467,14 @@ func (r *Runner) assignVal(name string, prev expand.Variable, as *syntax.Assign,
 	if valType == "-A" {
 		amap := make(map[string]string, len(elems))
 		for _, elem := range elems {
-			k := r.literal(elem.Index.(*syntax.Word))
-			amap[k] = r.literal(elem.Value)
+			word, ok := elem.Index.(*syntax.Word)
+			if !ok {
+				// e.g. ([1+2]=x), or the key/value list form (a b c) without subscripts
+				r.errf("%s: unsupported associative array subscript\n", name)
+				r.exit.code = 1
+				continue
+			}
+			amap[r.literal(word)] = r.literal(elem.Value)
 		}
 		if !as.Append {
 			prev.Kind = expand.Associative
